@@ -9,7 +9,13 @@ THEOREMS = ["Kalign.C09_override_exact", "Kalign.C09_defaults_nonneg", "Kalign.C
             "Kalign.C09_accept_indep", "Kalign.C09_over_cap_rejected", "Kalign.C09_defaults_within_cap", "Kalign.C09_defaults_dna", "Kalign.C09_defaults_internal", "Kalign.C09_defaults_protein",
             "Kalign.C09_defaults_divergent", "Kalign.C09_defaults_rna", "Kalign.C09_matrices_symmetric", "Kalign.C09_type_words",
             "Kalign.C09_mismatch_rejected", "Kalign.C09_default_branch_uniform"]
-CHECKER = "lake build KalignModel.Props.C09 && lake env lean KalignModel/Audit/C09.lean"
+CHECKER = "lake build KalignModel.Props.C09 KalignModel.Props.Cli && lake env lean KalignModel/Audit/C09.lean && lake env lean KalignModel/Audit/C09Cli.lean"
+
+
+def cli_theorems():
+    """the command-line front end (slice T): theorem list of Props/Cli.lean"""
+    p = os.path.join(C.LEAN, "KalignModel", "Props", "Cli.theorems")
+    return [l.strip() for l in open(p) if l.strip()] if os.path.exists(p) else []
 
 WORDS = {"dna": 0, "internal": 1, "rna": 2, "protein": 3, "divergent": 4}
 
@@ -62,12 +68,17 @@ def run(ctx):
     ctx.trusted = list(C.TRUSTED_COMMON) + ["out-of-range `type` values are represented by the executed values -1, 5, 6, 99 (C `default:` semantics)",
                                             "README.md parameter table transcribed into Props/C09.lean / Props/C09Ref.lean as the specification"]
     ctx.cov["_rule"] = ("unit: aln_param_init on 3 biotypes x 12 type values x 8 override subsets x values (incl. -0.0, NaN) and set_aln_type on words; "
+                        "the command-line front end (op cli: real main() with recording library entry points) on well-formed, malformed and number-torture command lines; "
                         "end to end: explicit-default vs default run, single overrides observed through the PARAM hook, CLI --type/--gpo/--gpe/--tgpe vs library; "
                         "non-trivial = distinct end-to-end comparisons whose alignment contains a gap")
     ok = C.lean_obligations(ctx, "C09", THEOREMS)
+    # from argv to the library calls: Props/Cli.lean over the model of main() (Model/Cli.lean, data regenerated into Gen/Cli.lean)
+    ok = C.lean_obligations(ctx, "C09Cli", cli_theorems(), module="Cli") and ok
     kvh = C.build_harness("asan")
     cli = C.build_cli("asan")
     lines = unit_ops(ctx)
+    # the real main() with the library entry points replaced by recorders (op `cli`) against the model
+    lines += C.gen_ops("gen_cli.py", ctx.seed, 100 if ctx.quick else 700)
     diffs = C.correspond(kvh, lines)
     ctx.count("unit_ops", len(lines))
     ctx.evaluations += len(lines)
